@@ -171,6 +171,7 @@ def type_name(v):
 
 # builtin type lattice used by isinstance on non-Obj values
 _BUILTIN_SUPERS = {
+    "bytes": {"bytes", "object"},
     "bool": {"bool", "int", "object"},
     "int": {"int", "object"},
     "float": {"float", "object"},
